@@ -858,6 +858,19 @@ def _warm_up():
             DEFAULT_PRINTER.quiet = q
     except BaseException:               # noqa
         pass
+    # the warm-up must leave no process-wide state behind that the first run would otherwise create itself: tqdm makes
+    # its class-level write lock (a multiprocessing RLock) on first use - created HERE it would be inherited by, and
+    # shared between, all forked workers
+    try:
+        import tqdm as _tqdm
+        import tqdm.std as _tqdm_std
+        _tqdm.tqdm._instances.clear()
+        if "_lock" in _tqdm.tqdm.__dict__:
+            del _tqdm.tqdm._lock
+        if "mp_lock" in _tqdm_std.TqdmDefaultWriteLock.__dict__:
+            del _tqdm_std.TqdmDefaultWriteLock.mp_lock
+    except BaseException:               # noqa
+        pass
 
 
 WRAPPED_CLASSES = install_monitor_wrappers()
